@@ -215,6 +215,21 @@ var c03Ops = []c03Op{
 		ctx.Response.Header.SetTrailer("X-T") //nolint:errcheck
 		ctx.Response.Header.Set("X-T", "tv")
 	}, func(m *c03Model, _ *c03Case) { m.trailer = "tv" }},
+	// The timeout path: the server abandons this ctx and answers from a copy of the timeout response; these ops end
+	// the program (nothing the handler did before or does afterwards reaches the wire).
+	{"timeout-error", func(ctx *RequestCtx, _ *c03Case) { ctx.TimeoutError("timeout message") },
+		func(m *c03Model, _ *c03Case) { *m = c03Model{status: 408, body: []byte("timeout message"), declared: -1} }},
+	{"timeout-error-with-code", func(ctx *RequestCtx, _ *c03Case) { ctx.TimeoutErrorWithCode("timeout with code", 504) },
+		func(m *c03Model, _ *c03Case) { *m = c03Model{status: 504, body: []byte("timeout with code"), declared: -1} }},
+	{"timeout-error-with-response", func(ctx *RequestCtx, _ *c03Case) {
+		var resp Response
+		resp.SetStatusCode(429)
+		resp.Header.Set("X-B", "from timeout response")
+		resp.SetBody([]byte("timeout response body"))
+		ctx.TimeoutErrorWithResponse(&resp)
+	}, func(m *c03Model, _ *c03Case) {
+		*m = c03Model{status: 429, body: []byte("timeout response body"), declared: -1, hdr: []c03KV{{"X-B", "from timeout response"}}}
+	}},
 	{"error-500", func(ctx *RequestCtx, _ *c03Case) { ctx.Error("oops", 500) },
 		func(m *c03Model, _ *c03Case) {
 			*m = c03Model{status: 500, ctype: "text/plain; charset=utf-8", body: []byte("oops"), declared: -1}
@@ -248,10 +263,15 @@ func c03Writer(L, n int) StreamWriter {
 	}
 }
 
+func c03IsTimeoutOp(name string) bool { return strings.HasPrefix(name, "timeout-") }
+
 func c03Interpret(prog []string, c *c03Case) *c03Model {
 	m := &c03Model{status: 200, declared: -1}
 	for _, name := range prog {
 		c03Ops[c03OpIdx[name]].model(m, c)
+		if c03IsTimeoutOp(name) {
+			break // the handler returns after declaring the timeout
+		}
 	}
 	return m
 }
@@ -271,6 +291,9 @@ type c03Run struct {
 	calls   int
 	evMark  [2]int // number of connection events when handler k was entered
 	outMark [2]int // bytes written to the connection when handler k was entered
+	// abandoned: contexts the server left behind on the timeout path; the harness resets their responses afterwards so
+	// that stream writers installed before the timeout do not pile up as blocked goroutines
+	abandoned []*RequestCtx
 }
 
 type c03NullLogger struct{}
@@ -298,6 +321,10 @@ func (ss *c03Servers) get(buf int) *Server {
 		}
 		for _, name := range prog {
 			c03Ops[c03OpIdx[name]].apply(ctx, run.c)
+			if c03IsTimeoutOp(name) {
+				run.abandoned = append(run.abandoned, ctx)
+				break
+			}
 		}
 	}
 	gz := CompressHandler(h)
@@ -370,6 +397,9 @@ func c03ExecInner(ss *c03Servers, c *c03Case) *c03Result {
 	ss.cur = run
 	srv := ss.get(c.Buf)
 	srv.ServeConn(conn) //nolint:errcheck
+	for _, ctx := range run.abandoned {
+		ctx.Response.Reset()
+	}
 	res := &c03Result{}
 	c03Oracle(c, run, res)
 	return res
